@@ -660,4 +660,114 @@ example : (sartRun (1/3 : ℚ) 2 [[1,2],[0,1],[1,1]] none [1,2,3]
 example : ((sartRun (1/3 : ℚ) 2 [[1,2],[0,1],[1,1]] none [1,2,3] (.scalar 1) 2 1 (1/10000)).toOption.map
     (fun r => r.2.getLast?)) = some (some ((14 - normSq (matVec [[1,2],[0,1],[1,1]] [27/32, 69/64])) / 14)) := by decide +kernel
 
+/-! ## Part 5 — round 6: `invert_svd` (svd.py), the pseudo-inverse contract -/
+
+section svd
+
+/-- a vector whose squared norm vanishes is zero -/
+theorem normSq_eq_zero (g : List α) (h : normSq g = 0) : ∀ v ∈ g, v = 0 := by
+  induction g with
+  | nil => simp
+  | cons a t ih =>
+    simp only [normSq, dot_cons] at h
+    have ht := normSq_nonneg t
+    simp only [normSq] at ht ih
+    have ha : a * a = 0 := by nlinarith [mul_self_nonneg a]
+    have ht0 : dot t t = 0 := by nlinarith [mul_self_nonneg a]
+    intro v hv
+    rcases List.mem_cons.1 hv with rfl | hv
+    · exact mul_self_eq_zero.1 ha
+    · exact ih ht0 v hv
+
+/-- svd.py returns `pinv(W)·b`.  `scipy.linalg.pinv` is a parameter; its contract is stated as the two Moore–Penrose
+conditions that matter for least squares, in operator form: (1) `W P W = W`, (3) `W P` is symmetric.  Under that
+contract the returned vector satisfies the normal equations `Wᵀ(Wx − b) = 0` of the caller's system. -/
+theorem svd_normal_equations (n : Nat) (pinv : List (List α) → List (List α)) (W : List (List α)) (b : List α)
+    (hW : ∀ row ∈ W, row.length = n) (hb : b.length = W.length)
+    (hP1 : ∀ z : List α, z.length = n → matVec W (matVec (pinv W) (matVec W z)) = matVec W z)
+    (hP3 : ∀ u v : List α, u.length = W.length → v.length = W.length →
+      dot (matVec W (matVec (pinv W) u)) v = dot u (matVec W (matVec (pinv W) v))) :
+    ∀ g ∈ normalEqResidual n W b (svdWrap pinv W b), g = 0 := by
+  set x := svdWrap pinv W b with hx
+  have hlenWx : ∀ z : List α, (matVec W z).length = W.length := fun z => by simp [matVec]
+  -- weak form: (W z)·(W x − b) = 0 for every z
+  have weak : ∀ z : List α, z.length = n → dot (matVec W z) (vsub (matVec W x) b) = 0 := by
+    intro z hz
+    rw [dot_vsub_right _ _ _ (by rw [hlenWx, hb])]
+    have h3 := hP3 b (matVec W z) hb (hlenWx z)
+    rw [hP1 z hz] at h3
+    have : dot (matVec W z) (matVec W x) = dot b (matVec W z) := by
+      rw [dot_comm]; exact h3
+    rw [this, dot_comm b]; ring
+  apply normSq_eq_zero
+  have hg := tMatVec_length n W (vsub (matVec W x) b) hW
+  show dot (normalEqResidual n W b x) (normalEqResidual n W b x) = 0
+  unfold normalEqResidual
+  rw [dot_tMatVec n W _ _ hW]
+  exact weak _ hg
+
+/-- … hence `invert_svd` returns a minimiser of `|Wy − b|²` over all `y` (given the pseudo-inverse contract) -/
+theorem svd_wrapper_correct (n : Nat) (pinv : List (List α) → List (List α)) (W : List (List α)) (b : List α)
+    (hW : ∀ row ∈ W, row.length = n) (hb : b.length = W.length) (hPn : (pinv W).length = n)
+    (hP1 : ∀ z : List α, z.length = n → matVec W (matVec (pinv W) (matVec W z)) = matVec W z)
+    (hP3 : ∀ u v : List α, u.length = W.length → v.length = W.length →
+      dot (matVec W (matVec (pinv W) u)) v = dot u (matVec W (matVec (pinv W) v))) :
+    ∀ y : List α, y.length = n →
+      normSq (vsub (matVec W (svdWrap pinv W b)) b) ≤ normSq (vsub (matVec W y) b) :=
+  normal_eq_sufficient n W b _ hW hb (by simp [svdWrap, matVec, hPn])
+    (svd_normal_equations n pinv W b hW hb hP1 hP3)
+
+end svd
+
+/-- non-vacuity: a rank-deficient over-determined system, `W = [1;1]`, `pinv W = [½ ½]` satisfies the contract; the
+returned `x = 1` for `b = (0,2)` leaves the residual `(1,−1)` — a least-squares solution, not an exact one -/
+example : ∀ y : List ℚ, y.length = 1 →
+    normSq (vsub (matVec [[1],[1]] (svdWrap (fun _ => [[1/2, 1/2]]) [[1],[1]] [0,2])) [0,2])
+      ≤ normSq (vsub (matVec [[1],[1]] y) [0,2]) := by
+  refine svd_wrapper_correct 1 _ _ _ (by decide) rfl rfl ?_ ?_
+  · intro z hz
+    match z, hz with
+    | [a], _ => simp [matVec, dot, vsum]; ring
+  · intro u v hu hv
+    match u, hu, v, hv with
+    | [a, b], _, [c, d], _ => simp [matVec, dot, vsum]; ring
+
+example : svdWrap (α := ℚ) (fun _ => [[1/2, 1/2]]) [[1],[1]] [0,2] = [1] := by decide +kernel
+
+/-! ### two entry points agree: `invert_constrained_sart` with `beta_laplace = 0` is `invert_sart` -/
+
+section agree
+
+theorem sweep_beta_zero (n : Nat) (W L : List (List α)) (b dens len inv : List α) (ω : α) (x yh : List α) :
+    sweep n W b dens len inv ω (gradPenalty (some (L, 0)) x) x yh = sweep n W b dens len inv ω none x yh := by
+  have h1 : ∀ (k j : Nat), ((List.replicate k (0 : α))[j]?).getD 0 = 0 := by
+    intro k j
+    by_cases h : j < k <;> simp [h]
+  unfold sweep gradPenalty
+  apply List.map_congr_left
+  intro j _
+  simp [cellUpdate, h1]
+
+/-- for every geometry matrix, measurement, guess, relaxation, tolerance and iteration limit — and every Laplacian, of any
+shape — the constrained solver with `beta_laplace = 0` returns what the unconstrained solver returns (solution, convergence
+list, or the same exception) -/
+theorem csart_beta_zero (expm1 : α) (n : Nat) (W L : List (List α)) (b : List α) (guess : Guess α) (maxIt : Nat) (ω tol : α) :
+    sartRun expm1 n W (some (L, 0)) b guess maxIt ω tol = sartRun expm1 n W none b guess maxIt ω tol := by
+  have loop : ∀ (fuel : Nat) (dens len inv x yh convRev : List α) (bb : α),
+      sartLoop n W b dens len inv ω (some (L, 0)) tol bb fuel x yh convRev
+        = sartLoop n W b dens len inv ω none tol bb fuel x yh convRev := by
+    intro fuel
+    induction fuel with
+    | zero => intros; rfl
+    | succ k ih =>
+      intro dens len inv x yh convRev bb
+      simp only [sartLoop, sweep_beta_zero, ih]
+      rfl
+  simp only [sartRun, loop]
+
+end agree
+
+example : (sartRun (1/3 : ℚ) 2 [[1,2],[0,1],[1,1]] (some ([[1,-1],[-1,1]], 0)) [1,2,3] (.scalar 1) 2 1 (1/10000)).toOption.map
+    (fun r => r.1) = some [27/32, 69/64] := by decide +kernel
+
 end Cherab.Props.C11
